@@ -1,7 +1,7 @@
 (* C06 -- property theorems only: statement + exact + Print Assumptions. *)
 From Coq Require Import List ZArith Bool String.
 From LJT Require Import model.Transform model.TransformSpec
-  proofs.TransformProofs proofs.TransformPlane proofs.TransformImage proofs.TransformGeneral proofs.TransformPerfect proofs.TransformLoops
+  proofs.TransformProofs proofs.TransformPlane proofs.TransformImage proofs.TransformGeneral proofs.TransformPerfect proofs.TransformLoops proofs.TransformTjSweep proofs.TransformTjSize
   gen.GenXform proofs.TransformGenFacts.
 Import ListNotations.
 Local Open Scope Z_scope.
@@ -339,6 +339,41 @@ Theorem C06_source_routine_shapes :
                     srcdim_eqb (snd (fst e)) (trim_dim_right op) && srcdim_eqb (snd e) (trim_dim_bottom op)) gen_mcu_dims = true.
 Proof. exact routine_shapes_from_source. Qed.
 Print Assumptions C06_source_routine_shapes.
+
+(* (10) the in-block loops of the C text, interpreted statement by statement by the translator on
+   every run, are the model's write lists (order = the model's nested case analysis) *)
+Theorem C06_source_inblock_writes :
+  gen_inblock =
+  [("do_flip_h", [wl W_fliph]); ("do_flip_v", [wl W_flipv]); ("do_transpose", [wl W_transpose]);
+   ("do_rot_90", [wl W_rot90; wl W_transpose]); ("do_rot_270", [wl W_rot270; wl W_transpose]);
+   ("do_rot_180", [wl W_rot180; wl W_flipv; wl W_fliph]);
+   ("do_transverse", [wl W_transverse; wl W_rot270; wl W_rot90; wl W_transpose]);
+   ("do_flip_h_no_crop", [wl W_fliph; wl W_fliph])]%string.
+Proof. exact inblock_writes_from_source. Qed.
+Print Assumptions C06_source_inblock_writes.
+
+(* (11) the parts of transupp.c outside the model (JCROP_FORCE/REFLECT/NEG, wipe, drop) cannot be
+   requested through tj3Transform: turbojpeg.c never mentions them; fields it assigns = tj_xopts *)
+Theorem C06_source_tj_reachable :
+  forallb (fun e => Nat.eqb (snd e) 0) gen_tj_unreachable = true /\
+  map fst gen_tj_unreachable = ["JCROP_FORCE"; "JCROP_REFLECT"; "JXFORM_WIPE"; "JXFORM_DROP"; "drop_ptr";
+                                "drop_coef_arrays"; "JCROP_NEG"]%string /\
+  gen_tj_xinfo_fields = ["crop"; "crop_height"; "crop_height_set"; "crop_width"; "crop_width_set"; "crop_xoffset";
+                         "crop_xoffset_set"; "crop_yoffset"; "crop_yoffset_set"; "force_grayscale"; "perfect";
+                         "slow_hflip"; "transform"; "trim"]%string.
+Proof. exact tj_reachable_from_source. Qed.
+Print Assumptions C06_source_tj_reachable.
+
+(* (12) tj3TransformBufSize / getTransformedSpecs (TJSAMP-grid based) vs tj3Transform: whenever
+   tj3Transform accepts, getTransformedSpecs accepts too and the dimensions it assumes are >= the
+   real output dimensions; T1-finite in the layout (sampling factors 1..4 as JPEG allows, swept) *)
+Theorem C06_tj_bufsize_dims_sufficient : forall im n t p,
+  layout_bounded im -> 1 <= i_w im -> 1 <= i_h im ->
+  0 <= t_x t -> 0 <= t_y t -> 0 <= t_w t -> 0 <= t_h t ->
+  request_workspace im (tj_xopts n t) = inr p -> tj_precheck im n t = None ->
+  exists w h s, tj_specs im t = Some (w, h, s) /\ p_ow p <= w /\ p_oh p <= h /\ 0 < tj_transform_buf_size im t.
+Proof. exact tj_bufsize_dims_sufficient. Qed.
+Print Assumptions C06_tj_bufsize_dims_sufficient.
 
 (* ---- non-vacuity ---- *)
 Example C06_ex_whole_image : whole_image ex_image 3 2.
